@@ -68,8 +68,30 @@ theorem f32?_neg {x : Num} (hz : x.isIntZero = false) {c : Nat} (h : f32? x.neg 
       rw [if_pos hb, fneg_flipBit hb]
     | err e => cases hconv
 
+theorem neg_of_isIntZero {x : Num} (hz : x.isIntZero = true) : x.neg = x := by
+  cases x with
+  | f d cv => cases hz
+  | i v cv =>
+    have hv : v = 0 := by simpa [Num.isIntZero] using hz
+    subst hv
+    simp [Num.neg]
+
 theorem fneg_fneg {b : Nat} (h : b < 2 ^ 32) : Fw.fneg (Fw.fneg b) = b := by
   unfold Fw.fneg; split <;> split <;> omega
+
+/-- what the firmware uses after negating the pre-negated legacy yaw rate -/
+theorem legacyYaw?_of_neg {x : Num} {c : Nat} (h : f32? x.neg = some c) : legacyYaw? x = some (Fw.fneg c) := by
+  unfold legacyYaw?
+  cases hz : x.isIntZero with
+  | true => rw [neg_of_isIntZero hz] at h; simp [h]
+  | false => simpa using f32?_neg hz h
+
+/-- the pitch field on the wire -/
+theorem pitchWire?_of_neg {x : Num} {c : Nat} (h : f32? x.neg = some c) : pitchWire? x = some c := by
+  unfold pitchWire?
+  cases hz : x.isIntZero with
+  | true => rw [neg_of_isIntZero hz] at h; simp [h]
+  | false => simp [f32?_neg hz h, fneg_fneg (f32?_lt h)]
 
 /-! ### formats (Tie A: the model packs with the regenerated strings; the firmware layouts are literal) -/
 
@@ -105,12 +127,11 @@ theorem sound_setpoint (ver : Int) (xm : Bool) (roll pitch mr mp yaw thrust : Nu
     have hlen := packNums_length (by decide) hd
     have hu := unpackAs_packNums (by decide) hd
     obtain ⟨⟨a, ha⟩, ⟨b, hb⟩, ⟨c, hc⟩, ⟨t, cv, rfl, ht⟩, _⟩ := packNums_allRepr hd
-    have hb' := f32?_neg hpre hb
+    have hb' := pitchWire?_of_neg hb
     refine ⟨_, rfl, ?_, ?_, ?_⟩
     · simp [mkPacket, hlen, Fmt.size, Code.size]
     · simp [expected?, ha, hb', hc, uint?_ofNat ht]
-    · simp [Fw.decode, mkPacket, Fw.decodeRpyt, hu, asVals, Num.asVal, ha, hb, hc, expected?, hb', uint?_ofNat ht,
-        fneg_fneg (f32?_lt hb)]
+    · simp [Fw.decode, mkPacket, Fw.decodeRpyt, hu, asVals, Num.asVal, ha, hb, hc, expected?, hb', uint?_ofNat ht]
 
 theorem sound_notifyStop (ver : Int) (ms : Num) : Sound1 ver (.notifyStop ms) := by
   intro ps h _
@@ -157,14 +178,14 @@ theorem sound_velocityWorld (ver : Int) (vx vy vz yr : Num) : Sound1 ver (.veloc
   split at h
   · rename_i hv
     obtain ⟨r, a, b, c, d, rfl, hlen, ha, hb, hc, hd, hu⟩ := generic4 fmt_velocityWorld0 (by decide) h
-    have hd' := f32?_neg (hpre hv) hd
-    refine ⟨_, rfl, by simp [mkPacket, hlen], by simp [expected?, ha, hb, hc, hd'], ?_⟩
-    simp [Fw.decode, mkPacket, Fw.decodeGeneric, hu, expected?, ha, hb, hc, hd']
+    have hd' := legacyYaw?_of_neg hd
+    refine ⟨_, rfl, by simp [mkPacket, hlen], by simp [expected?, hv, ha, hb, hc, hd'], ?_⟩
+    simp [Fw.decode, mkPacket, Fw.decodeGeneric, hu, expected?, hv, ha, hb, hc, hd']
   · rename_i hv
     obtain ⟨r, a, b, c, d, rfl, hlen, ha, hb, hc, hd, hu⟩ := generic4 fmt_velocityWorld1 (by decide) h
     have h9 : ¬ ver < 9 := by omega
-    refine ⟨_, rfl, by simp [mkPacket, hlen], by simp [expected?, ha, hb, hc, hd], ?_⟩
-    simp [Fw.decode, mkPacket, Fw.decodeGeneric, hu, expected?, ha, hb, hc, hd, h9]
+    refine ⟨_, rfl, by simp [mkPacket, hlen], by simp [expected?, hv, ha, hb, hc, hd], ?_⟩
+    simp [Fw.decode, mkPacket, Fw.decodeGeneric, hu, expected?, hv, ha, hb, hc, hd, h9]
 
 theorem sound_zdistance (ver : Int) (roll pitch yr z : Num) : Sound1 ver (.zdistance roll pitch yr z) := by
   intro ps h hpre
@@ -172,14 +193,14 @@ theorem sound_zdistance (ver : Int) (roll pitch yr z : Num) : Sound1 ver (.zdist
   split at h
   · rename_i hv
     obtain ⟨r, a, b, c, d, rfl, hlen, ha, hb, hc, hd, hu⟩ := generic4 fmt_zdistance0 (by decide) h
-    have hc' := f32?_neg (hpre hv) hc
-    refine ⟨_, rfl, by simp [mkPacket, hlen], by simp [expected?, ha, hb, hc', hd], ?_⟩
-    simp [Fw.decode, mkPacket, Fw.decodeGeneric, hu, expected?, ha, hb, hc', hd]
+    have hc' := legacyYaw?_of_neg hc
+    refine ⟨_, rfl, by simp [mkPacket, hlen], by simp [expected?, hv, ha, hb, hc', hd], ?_⟩
+    simp [Fw.decode, mkPacket, Fw.decodeGeneric, hu, expected?, hv, ha, hb, hc', hd]
   · rename_i hv
     obtain ⟨r, a, b, c, d, rfl, hlen, ha, hb, hc, hd, hu⟩ := generic4 fmt_zdistance1 (by decide) h
     have h9 : ¬ ver < 9 := by omega
-    refine ⟨_, rfl, by simp [mkPacket, hlen], by simp [expected?, ha, hb, hc, hd], ?_⟩
-    simp [Fw.decode, mkPacket, Fw.decodeGeneric, hu, expected?, ha, hb, hc, hd, h9]
+    refine ⟨_, rfl, by simp [mkPacket, hlen], by simp [expected?, hv, ha, hb, hc, hd], ?_⟩
+    simp [Fw.decode, mkPacket, Fw.decodeGeneric, hu, expected?, hv, ha, hb, hc, hd, h9]
 
 theorem sound_hover (ver : Int) (vx vy yr z : Num) : Sound1 ver (.hover vx vy yr z) := by
   intro ps h hpre
@@ -187,14 +208,14 @@ theorem sound_hover (ver : Int) (vx vy yr z : Num) : Sound1 ver (.hover vx vy yr
   split at h
   · rename_i hv
     obtain ⟨r, a, b, c, d, rfl, hlen, ha, hb, hc, hd, hu⟩ := generic4 fmt_hover0 (by decide) h
-    have hc' := f32?_neg (hpre hv) hc
-    refine ⟨_, rfl, by simp [mkPacket, hlen], by simp [expected?, ha, hb, hc', hd], ?_⟩
-    simp [Fw.decode, mkPacket, Fw.decodeGeneric, hu, expected?, ha, hb, hc', hd]
+    have hc' := legacyYaw?_of_neg hc
+    refine ⟨_, rfl, by simp [mkPacket, hlen], by simp [expected?, hv, ha, hb, hc', hd], ?_⟩
+    simp [Fw.decode, mkPacket, Fw.decodeGeneric, hu, expected?, hv, ha, hb, hc', hd]
   · rename_i hv
     obtain ⟨r, a, b, c, d, rfl, hlen, ha, hb, hc, hd, hu⟩ := generic4 fmt_hover1 (by decide) h
     have h9 : ¬ ver < 9 := by omega
-    refine ⟨_, rfl, by simp [mkPacket, hlen], by simp [expected?, ha, hb, hc, hd], ?_⟩
-    simp [Fw.decode, mkPacket, Fw.decodeGeneric, hu, expected?, ha, hb, hc, hd, h9]
+    refine ⟨_, rfl, by simp [mkPacket, hlen], by simp [expected?, hv, ha, hb, hc, hd], ?_⟩
+    simp [Fw.decode, mkPacket, Fw.decodeGeneric, hu, expected?, hv, ha, hb, hc, hd, h9]
 
 theorem sound_position (ver : Int) (x y z yaw : Num) : Sound1 ver (.position x y z yaw) := by
   intro ps h _
